@@ -83,6 +83,10 @@ class TypeParser:
             if t in ('const', 'volatile', 'struct', 'class', 'enum', 'typename'):
                 self.i += 1
                 continue
+            if re.match(r'\d+$', t) and not words and not name_parts:
+                # non-type template argument (std::ratio<1, 1000>)
+                self.i += 1
+                return ('num', int(t))
             if re.match(r'[A-Za-z_]', t):
                 self.i += 1
                 if t in ('unsigned', 'signed', 'long', 'short', 'int', 'char', 'double', 'float', 'bool', 'void') and not name_parts:
@@ -192,18 +196,28 @@ class TypeParser:
             if std_name in ('decay_t', 'remove_reference_t', 'remove_cv_t', 'remove_const_t'):
                 t0 = targs[0]
                 return t0[1] if t0[0] == 'ref' else t0
-            if std_name in ('chrono::duration', 'chrono::time_point'):
-                return ('opaque', plain)
+            if std_name in ('chrono::duration', 'chrono::time_point', 'chrono::_V2::system_clock::time_point'):
+                # a tick count: durations and time points are 64-bit signed integers; conversions BETWEEN units have no
+                # rule (duration_cast etc. are extraction breaks), so the unit never matters
+                return ('int', 64, True)
             return ('opaque', plain)
         if plain in BUILTINS:
             return BUILTINS[plain]
         if plain in ('std::string', 'string'):
             return ('str',)
+        if plain in ('std::chrono::milliseconds', 'std::chrono::seconds', 'std::chrono::nanoseconds', 'std::chrono::microseconds',
+                     'std::chrono::system_clock::time_point', 'std::chrono::_V2::system_clock::time_point'):
+            return ('int', 64, True)
         if plain in EXTERNAL_RECORDS:
             return ('ext', EXTERNAL_RECORDS[plain])
         if plain in self.aliases:
             return self.aliases[plain]
         q = self.resolve(plain)
+        if q is None:
+            # partially qualified alias (beat_data_blob::beat_grid_marker_blobs_type)
+            al = [a for a in self.aliases if a.endswith('::' + plain)]
+            if len(set(map(repr, (self.aliases[a] for a in al)))) == 1:
+                return self.aliases[al[0]]
         if q is not None:
             if q in self.enums:
                 return ('enum', q)
